@@ -239,9 +239,11 @@ _pb("C06", "contract-based deductive verification (pyvc) of four blocks of gramm
     "(= set-based gap degree + 1, over the contract of terminal_blocks), no argument is empty, every element refers to an "
     "existing right-hand-side position, neighbours differ, no KeyError / IndexError; the vertical context has one entry per "
     "dominating node, bottom-up, label followed by the decimal block count. That the linearization instantiates to the yield "
-    "of the node (the within-position counters), the lexicon and extraction over whole treebanks are bounded only.",
+    "of the node (the within-position counters) and extraction over whole treebanks are bounded only. The lexicon block "
+    "adds exactly one to the count of the token's (word, tag) - 0 when absent, a fresh table for an unknown word - and changes "
+    "no other count (Counter([]) / Counter.update([k]) modelled as a table of counts).",
     "block contracts proved, the yield-instantiation of the extracted rules bounded; 'other'")
-_pb("C08", "contract-based deductive verification (pyvc) of the five counting blocks of binarize_rule and extract as block contracts (count = previous count + amount, no other entry changes); bounded stand-in for the conservation equations",
+_pb("C08", "contract-based deductive verification (pyvc) of the five counting blocks of binarize_rule and extract and of the lexicon block of extract as block contracts (count = previous count + amount, no other entry changes); bounded stand-in for the conservation equations",
     "Each of the four counting blocks of binarize_rule and the one of extract is located in the real AST and proved on an "
     "arbitrary nested dict: afterwards the entry holds its previous count (0 if absent) plus the amount and no other entry "
     "has changed -- the 'sum, never only the last one seen' clause of the property (this obligation fails with a counter-model on "
